@@ -345,8 +345,8 @@ def raises_ord():
     return z3.Function("raises_ord_Val", V, V, z3.BoolSort())
 
 
-def axioms_PS8():
-    """PS8: whether an order comparison (<=, >=) of two values raises is a deterministic function of the two values, does not
+def axioms_PS11():
+    """PS11: whether an order comparison (<=, >=) of two values raises is a deterministic function of the two values, does not
     depend on the side a value is on, and a deep copy behaves like the original."""
     V = _V()
     a, b = z3.Consts("ps8!a ps8!b", V)
@@ -363,7 +363,7 @@ def s_cmp_raises(I, a, b):
 
 
 def ord_may_raise(I, opname, za, zb, node):
-    """ghost option cmp_may_raise: an order comparison of two abstract values raises iff raises_ord(a, b) (PS8)"""
+    """ghost option cmp_may_raise: an order comparison of two abstract values raises iff raises_ord(a, b) (PS11)"""
     from .core import RaiseSig
 
     if opname not in ("le", "ge", "lt", "gt") or I.V.in_contract_expr:
@@ -406,7 +406,7 @@ def s_same(I, a, b):
 
 
 SPEC_NS.update({"deepcopy": s_deepcopy, "le": s_le, "ge": s_ge, "contains": s_contains, "same": s_same, "undefined": Ellipsis})
-AXIOM_SETS.update({"val": axioms_val, "E2": axioms_E2, "E1": axioms_E1, "PS8": axioms_PS8})
+AXIOM_SETS.update({"val": axioms_val, "E2": axioms_E2, "E1": axioms_E1, "PS11": axioms_PS11})
 SPEC_NS.update({"cmp_raises": s_cmp_raises})
 
 
